@@ -78,6 +78,12 @@ type IterV struct {
 	isMap bool
 }
 
+// ChanV: minimal buffered channel (sequential model: sends append, receives pop).
+type ChanV struct {
+	buf []Value
+	cap int
+}
+
 type OpaqueV struct{ desc string }
 
 func (o OpaqueV) String() string { return "opaque(" + o.desc + ")" }
